@@ -34,6 +34,8 @@ def parse_hist(out):
         elif t[1] == "ORIGVALS": h["origvals"] = {k: int(v) for k, v in kv(t[2]).items()}
         elif t[1] == "END": h["end"] = kv(",".join(t[2:]))
         elif t[1] == "CHILD": h["child"] = t[2]
+        elif t[1].startswith("L") and len(t) > 2 and t[2] == "MAPOVER":
+            h.setdefault("mapover", []).append(t[3])
         elif t[1].startswith("L"):
             li = int(t[1][1:]); tag = t[2]
             rest = line.split(" ", 3)[3]
@@ -80,6 +82,7 @@ SITE_WHEN = {0: True, 1: True, 2: True, 3: True, 4: True, 5: False, 6: True, 7: 
 
 def translate(h, lifetimes):
     """symbolic ops -> model ops; returns (model lifetimes string, symtab, expected value of each synthetic fake)"""
+    lifetimes = [[o for o in ops if o != "MAPOVER"] for ops in lifetimes]
     addr = dict(h["addr"])
     synth_val = {}
     out = []
@@ -96,9 +99,9 @@ def translate(h, lifetimes):
                     u = e.split()
                     if u[0] == "F" and len(u) > 3 and any(j == u[1] for j in r.jits):
                         dest = decode_dest(u[3], int(u[1], 16))
-            if dest is None: dest = 0xdead0000 + len(addr)
-            addr[name] = dest
             synth_val[name] = val
+            if dest is None: return 0xdead0000 + len(addr)      # this occurrence was never executed (an earlier op panicked): do not remember a placeholder
+            addr[name] = dest
         return addr[name]
     for li, ops in enumerate(lifetimes):
         mo = []
@@ -125,23 +128,14 @@ def translate(h, lifetimes):
                 elif t[2] == "rawat": mo.append(f"I:{f:x}:exec:{addr[t[3]]:x}")
                 else:
                     name = f"z{t[2]}{t[3]}"
-                    if name not in addr:
-                        r = by.get((li, f"OP{oi}"))
-                        dest = None
-                        if r:
-                            for e in r.ev:
-                                u = e.split()
-                                if u[0] == "F" and len(u) > 3 and any(j == u[1] for j in r.jits):
-                                    dest = decode_dest(u[3], int(u[1], 16))
-                        if dest is None: dest = 0xdead0000 + len(addr)
-                        addr[name] = dest
-                        synth_val[name] = EXPECT[t[2]] + int(t[3])
-                    mo.append(f"I:{f:x}:exec:{addr[name]:x}")
+                    d = synth(name, li, oi, EXPECT[t[2]] + int(t[3]))
+                    mo.append(f"I:{f:x}:exec:{d:x}")
             elif t[0] == "BADSIG": mo.append("X:sig")
             elif t[0] == "BADBOOL": mo.append("X:boolgate")
             elif t[0] == "NULL": mo.append("X:null")
             elif t[0] == "C": mo.append("C:-:-:1")
             elif t[0] == "P": mo.append("P")
+            elif t[0] == "MAPOVER": pass          # an action of the environment, not of the injector
         out.append(",".join(mo) if mo else "-")
     symtab = ",".join(f"{k}={v:x}" for k, v in addr.items())
     return "|".join(out), symtab, synth_val, addr
